@@ -120,6 +120,36 @@ class Encoder:
       return ('g', r[1], f)
     return r
 
+  def find_cycle_without_pp(self, prog, pps, tid):
+    """Returns the head (smallest pc) of a control-flow cycle that contains no pre-emption point, or None."""
+    n = len(prog.ins)
+    color = {}
+    for root in sorted(self.reach[tid]):
+      if root in color or root in pps:
+        continue
+      stack = [(root, iter(self.succs(prog, root)))]
+      color[root] = 1
+      path = [root]
+      while stack:
+        node, it = stack[-1]
+        adv = False
+        for nx in it:
+          if nx >= n or nx in pps:
+            continue
+          if color.get(nx) == 1:
+            return min(path[path.index(nx):])
+          if nx not in color:
+            color[nx] = 1
+            path.append(nx)
+            stack.append((nx, iter(self.succs(prog, nx))))
+            adv = True
+            break
+        if not adv:
+          color[node] = 2
+          path.pop()
+          stack.pop()
+    return None
+
   def single_racy(self, ins):
     R, Wr = self.resources(ins)
     return len({self.canon(r) for r in (R | Wr) if r[0] not in ('L', 'C', 'T')}) <= 1
@@ -275,6 +305,14 @@ class Encoder:
       merged = {pc for pc in pps if pc != 0 and (tid, pc) in self.racy_at and prog.ins[pc]['op'] in ('set', 'qget', 'qput', 'lappend', 'lpopleft', 'retadd')
                 and phase[pc] is True and self.single_racy(prog.ins[pc])}
       pps -= merged
+      # every cycle of the control flow graph must contain a PP (macro-steps are loop free): break remaining cycles
+      self.loop_pps = getattr(self, 'loop_pps', set())
+      while True:
+        cyc = self.find_cycle_without_pp(prog, pps, tid)
+        if cyc is None:
+          break
+        pps.add(cyc)
+        self.loop_pps.add((tid, cyc))
       self.pp.append(sorted(pps))
     self.halts = [[pc for pc, ins in enumerate(p.ins) if ins['op'] == 'halt'] for p in s.threads]
     # 4. locals that are live across a pre-emption point are the only locals kept in the state vector
@@ -599,7 +637,7 @@ class Encoder:
       o, f = ins['obj'], ins['field']
       val = self.ev(ins['val'], st, tid)
       st[('g', o, f)] = st[('g', o, f)] | val
-      st[('g', o, f + '.cnt')] = st[('g', o, f + '.cnt')] + 1
+      st[('g', o, f + '.cnt')] = st[('g', o, f + '.cnt')] + z3.If(val != 0, BV(1), BV(0))      # StopIteration() without a value has no args
       return [(None, st, pc + 1)]
     if op in ('nop', 'start'):
       return [(None, st, pc + 1)]
@@ -638,39 +676,114 @@ class Encoder:
     return started
 
   def frag(self, tid, pc, st, choice, first=True, depth=0):
-    if first and depth == 0:
-      st = dict(st)
-      zero = BV(0)
-      for name in self.s.threads[tid].locals:
-        if ('l', tid, name) not in st:
-          st[('l', tid, name)] = zero
-    if depth > 400:
-      raise Unsupported(f'thread {tid}: loop without a pre-emption point around instruction {pc} (line {self.s.threads[tid].ins[pc]["line"]})')
+    """Symbolic execution of the macro-step that starts at PP `pc`: the acyclic region up to the next PPs is processed
+    in topological order with state merging at join points (no path enumeration). Returns (state, next pc term)."""
     prog = self.s.threads[tid]
-    if not first and pc in self._ppset[tid]:
-      return st, BV(pc, PCW)
+    st = dict(st)
+    zero = BV(0)
+    for name in prog.locals:
+      if ('l', tid, name) not in st:
+        st[('l', tid, name)] = zero
     if prog.ins[pc]['op'] == 'halt':
       return st, BV(pc, PCW)
-    outs = self.step1(tid, pc, st, choice)
-    res = None
-    for c, s2, npc in outs:
-      r = self.frag(tid, npc, s2, choice, False, depth + 1)
-      if res is None:
-        res = r if c is None else (c, r)
-        if c is None:
-          return r
-        acc = [(c, r)]
-      else:
-        acc.append((c, r))
-    # merge alternatives (conditions are mutually exclusive and exhaustive)
-    st_out, pc_out = acc[-1][1]
-    for c, (sa, pa) in reversed(acc[:-1]):
-      merged = {}
-      for k in sa:
-        a, b = sa[k], st_out.get(k)
-        merged[k] = a if (b is not None and a is b) else z3.If(c, a, b)
-      st_out, pc_out = merged, z3.If(c, pa, pc_out)
-    return st_out, pc_out
+    region = self.region(tid, pc)
+    order = region['order']
+    cond = {pc: None}            # None = True
+    state = {pc: st}
+    exits = []                   # (cond, state, target pc)
+    for node in order:
+      if node not in state:
+        continue
+      c_in, s_in = cond[node], state.pop(node)
+      for c, s2, npc in self.step1(tid, node, s_in, choice):
+        ec = c_in if c is None else (c if c_in is None else z3.And(c_in, c))
+        if npc in self._ppset[tid] or prog.ins[npc]['op'] == 'halt' or npc not in region['set']:
+          exits.append((ec, s2, npc))
+        elif npc not in state:
+          state[npc], cond[npc] = s2, ec
+        else:
+          old, oc = state[npc], cond[npc]
+          merged = dict(old)
+          for k, v in s2.items():
+            ov = old.get(k)
+            if ov is not v:
+              merged[k] = z3.If(ec, v, ov) if (ec is not None and ov is not None) else v
+          state[npc] = merged
+          cond[npc] = None if (ec is None or oc is None) else z3.Or(oc, ec)
+    if not exits:
+      raise Unsupported(f'thread {tid}: macro-step at {pc} has no exit')
+    s_out, pc_out = dict(exits[-1][1]), BV(exits[-1][2], PCW)
+    for ec, sa, pa in reversed(exits[:-1]):
+      if ec is None:
+        s_out, pc_out = dict(sa), BV(pa, PCW)
+        continue
+      for k, v in sa.items():
+        ov = s_out.get(k)
+        if ov is not v:
+          s_out[k] = z3.If(ec, v, ov) if ov is not None else v
+      pc_out = z3.If(ec, BV(pa, PCW), pc_out)
+    return s_out, pc_out
+
+  def region(self, tid, pc):
+    """Nodes of the macro-step starting at PP pc (excluding later PPs) in topological order."""
+    cache = self.__dict__.setdefault('_region_cache', {})
+    if (tid, pc) in cache:
+      return cache[(tid, pc)]
+    prog = self.s.threads[tid]
+    n = len(prog.ins)
+    nodes, stack = set(), [pc]
+    while stack:
+      q = stack.pop()
+      if q in nodes:
+        continue
+      nodes.add(q)
+      if prog.ins[q]['op'] == 'halt':
+        continue
+      for nx in self.succs_all(prog, q):
+        if nx < n and nx not in self._ppset[tid] and nx not in nodes:
+          stack.append(nx)
+    indeg = {q: 0 for q in nodes}
+    for q in nodes:
+      if prog.ins[q]['op'] == 'halt':
+        continue
+      for nx in set(self.succs_all(prog, q)):
+        if nx in nodes and nx != pc and nx not in self._ppset[tid]:
+          indeg[nx] += 1
+    order, ready = [], [pc]
+    indeg[pc] = 0
+    while ready:
+      q = ready.pop()
+      order.append(q)
+      if prog.ins[q]['op'] == 'halt':
+        continue
+      for nx in set(self.succs_all(prog, q)):
+        if nx in nodes and nx != pc and nx not in self._ppset[tid]:
+          indeg[nx] -= 1
+          if indeg[nx] == 0:
+            ready.append(nx)
+    if len(order) != len(nodes):
+      raise Unsupported(f'thread {tid}: macro-step at {pc} contains a cycle without a pre-emption point')
+    cache[(tid, pc)] = {'set': nodes, 'order': order}
+    return cache[(tid, pc)]
+
+  def succs_all(self, prog, pc):
+    """Successors as produced by step1 (all edges, also statically infeasible ones)."""
+    ins = prog.ins[pc]
+    op = ins['op']
+    L = prog.labels
+    if op == 'br':
+      return [L[ins['t']], L[ins['f']]]
+    if op == 'jmp':
+      return [L[ins['t']]]
+    if op == 'halt':
+      return []
+    if op == 'qget':
+      return [L[ins['ok']], L[ins['empty']]]
+    if op == 'qput':
+      return [L[ins['ok']], L[ins['full']]]
+    if op == 'next':
+      return [L[ins['ok']], L[ins['stop']], L[ins['err']]]
+    return [pc + 1]
 
   def frag_access(self, tid, pc):
     """Static over-approximation of the resources touched by the macro-step starting at pc."""
